@@ -211,32 +211,217 @@ Proof.
       destruct (Nat.eq_dec (total st1) nodes); lia.
 Qed.
 
-Lemma levels_total fuel : forall hosts useAll ilLen N nodes lvl st st',
-  1 <= N ->
-  levels fuel hosts useAll ilLen N nodes lvl st = Some st' ->
-  total st <= nodes -> length (bacc st) = total st ->
-  total st' = nodes /\ length (bacc st') = nodes.
+
+(* ---- level sizes of the big generator ----------------------------------------- *)
+
+(* share of parent i (0-based) out of L when [rem] nodes remain: min N (rem*(i+1)/L) *)
+Definition share (N L rem i : nat) : nat := Nat.min N (rem * (i + 1) / L).
+
+Lemma share_is_cnt N L rem i : (if N <? rem * (i + 1) / L then N else rem * (i + 1) / L) = share N L rem i.
+Proof. unfold share. destruct (Nat.ltb_spec N (rem * (i + 1) / L)); [now rewrite Nat.min_l by lia|now rewrite Nat.min_r]. Qed.
+
+Lemma share_le_rem N L rem i : i < L -> share N L rem i <= rem.
 Proof.
-  induction fuel as [|f IH]; intros hosts useAll ilLen N nodes lvl st st' HN H Hle Hlen.
+  intros H. unfold share. etransitivity; [apply Nat.le_min_r|].
+  apply Nat.div_le_upper_bound; [lia|]. nia.
+Qed.
+
+(* full case: enough nodes remain for every later parent to get N *)
+Lemma share_full N L rem i : 1 <= N -> i < L -> N * (L - i) <= rem -> share N L rem i = N.
+Proof.
+  intros HN Hi Hrem. unfold share. apply Nat.min_l.
+  apply Nat.div_le_lower_bound; [lia|].
+  (* L*N <= rem*(i+1) ; rem >= N*(L-i), (L-i)*(i+1) >= L *)
+  remember (L - i - 1) as k eqn:Hk. assert (E : L - i = k + 1) by lia. rewrite E in Hrem.
+  assert (HL : L = i + 1 + k) by lia. clear Hk E. subst L.
+  assert (H1 : (k + 1) * (i + 1) >= i + 1 + k) by nia.
+  assert (H2 : N * ((k + 1) * (i + 1)) >= N * (i + 1 + k)) by (apply Nat.mul_le_mono_l; lia).
+  assert (H3 : rem * (i + 1) >= N * (k + 1) * (i + 1)) by (apply Nat.mul_le_mono_r; lia).
+  nia.
+Qed.
+
+(* capacity invariant: if rem <= N*(L-i) then after the share, rem' <= N*(L-i-1) *)
+Lemma share_capacity N L rem i : 1 <= N -> i < L -> rem <= N * (L - i) ->
+  rem - share N L rem i <= N * (L - i - 1).
+Proof.
+  intros HN Hi Hrem. unfold share.
+  remember (L - i - 1) as k eqn:Hk. assert (E : L - i = k + 1) by lia. rewrite E in Hrem.
+  assert (HL : L = i + 1 + k) by lia. clear Hk E.
+  destruct (Nat.le_gt_cases N (rem * (i + 1) / L)) as [Hge|Hlt].
+  - rewrite Nat.min_l by assumption. nia.
+  - rewrite Nat.min_r by lia.
+    set (q := rem * (i + 1) / L) in *.
+    assert (Hq1 : L * q <= rem * (i + 1)) by (apply Nat.mul_div_le; lia).
+    assert (Hq2 : rem * (i + 1) < L * (q + 1)).
+    { pose proof (Nat.div_mod (rem * (i + 1)) L ltac:(lia)) as Hd.
+      pose proof (Nat.mod_upper_bound (rem * (i + 1)) L ltac:(lia)). fold q in Hd. nia. }
+    destruct (Nat.le_gt_cases (rem - q) (N * k)) as [|Hbad]; [assumption|exfalso].
+    assert (rem >= q + N * k + 1) by lia.
+    assert ((q + N * k + 1) * (i + 1) <= rem * (i + 1)) by nia.
+    assert (N * (i + 1) >= q + 1) by nia.
+    subst L. nia.
+Qed.
+
+(* the last parent takes everything that is left when it fits *)
+Lemma share_last N L rem : 1 <= L -> rem <= N -> share N L rem (L - 1) = rem.
+Proof.
+  intros HL Hrem. unfold share. replace (L - 1 + 1) with L by lia.
+  rewrite Nat.div_mul by lia. now apply Nat.min_r.
+Qed.
+
+Lemma place_created cnt : forall hosts useAll ilLen parent ph st created st' created',
+  place cnt hosts useAll ilLen parent ph st created = Some (st', created') ->
+  length created' = length created + cnt.
+Proof.
+  induction cnt as [|c IH]; intros hosts useAll ilLen parent ph st created st' created' H.
+  - cbn in H. inversion H; subst. lia.
+  - cbn [place] in H.
+    destruct (nth_error hosts (roIndex st)); [|discriminate].
+    destruct (search _ _ _ _ _ _ _ _ _ _) as [ri|]; [|discriminate].
+    apply IH in H. rewrite app_length in H. cbn in H. lia.
+Qed.
+
+(* one pass over the parents of a level: either every remaining parent gets N children
+   (enough nodes remain), or the pass ends exactly at [nodes] *)
+Lemma level_fill hosts useAll ilLen N nodes L : forall lvl i st newlvl st' newlvl',
+  1 <= N -> i + length lvl = L ->
+  level hosts useAll ilLen N nodes L lvl i st newlvl = Some (st', newlvl') ->
+  total st <= nodes ->
+  total st <= total st' /\
+  length newlvl' = length newlvl + (total st' - total st) /\
+  (N * (L - i) <= nodes - total st -> total st' = total st + N * length lvl) /\
+  (nodes - total st <= N * (L - i) -> lvl <> [] -> total st' = nodes).
+Proof.
+  induction lvl as [|[p pr] rest IH]; intros i st newlvl st' newlvl' HN HL H Hle.
+  - cbn in H. inversion H; subst. split; [lia|]. split; [lia|]. split; [intros _; cbn; lia|]. intros _ Hc. congruence.
+  - cbn [level] in H. cbn [length] in HL.
+    rewrite share_is_cnt in H.
+    set (cnt := share N L (nodes - total st) i) in H.
+    destruct (nth_error hosts pr); [|discriminate].
+    destruct (place cnt hosts useAll ilLen p n st []) as [[st1 created]|] eqn:Hp; [|discriminate].
+    pose proof (place_created _ _ _ _ _ _ _ _ _ _ Hp) as Hc. cbn in Hc.
+    apply place_total in Hp. destruct Hp as [Ht Hb].
+    assert (Hcnt : cnt <= nodes - total st) by (apply share_le_rem; lia).
+    destruct (IH (S i) st1 _ st' newlvl' HN ltac:(lia) H ltac:(lia)) as (H0 & H1 & H2 & H3).
+    rewrite app_length, map_length in H1.
+    repeat split.
+    + lia.
+    + lia.
+    + intros Hfull. assert (cnt = N) by (apply share_full; lia). cbn [length].
+      rewrite H2; [nia|]. replace (L - S i) with (L - i - 1) by lia.
+      remember (L - i - 1) as k. assert (L - i = k + 1) by lia. nia.
+    + intros Hcap _.
+      assert (Hcap1 : nodes - total st - cnt <= N * (L - i - 1)) by (apply share_capacity; lia).
+      destruct rest as [|x rest'].
+      * cbn in H1. cbn [length] in HL.
+        assert (cnt = nodes - total st).
+        { unfold cnt. replace i with (L - 1) by lia. apply share_last; [lia|].
+          replace (L - i) with 1 in Hcap by lia. lia. }
+        assert (total st' = total st1).
+        { rewrite H2; [cbn; lia|]. replace (L - S i) with 0 by lia. lia. }
+        lia.
+      * apply H3; [|congruence]. replace (L - S i) with (L - i - 1) by lia. lia.
+Qed.
+
+(* level sizes, most recent level first: every level is N times the one before it *)
+Fixpoint rfull (N : nat) (l : list nat) : Prop :=
+  match l with
+  | [] => False
+  | [c] => c = 1
+  | c :: ((d :: _) as r) => c = N * d /\ rfull N r
+  end.
+
+(* ... except that the most recent (= last, deepest) level may be partly filled *)
+Definition rshape (N : nat) (l : list nat) : Prop :=
+  match l with
+  | [] => False
+  | [c] => c = 1
+  | c :: ((d :: _) as r) => 1 <= c <= N * d /\ rfull N r
+  end.
+
+Lemma rfull_pos N l : 1 <= N -> rfull N l -> 1 <= hd 0 l.
+Proof.
+  intros HN. induction l as [|c [|d r] IH]; cbn; intros H; try tauto; try lia.
+  destruct H as [-> H]. specialize (IH H). cbn in IH. nia.
+Qed.
+
+Lemma rfull_rshape N l : 1 <= N -> rfull N l -> rshape N l.
+Proof.
+  intros HN. destruct l as [|c [|d r]]; cbn; auto. intros [-> H]. split; auto.
+  pose proof (rfull_pos N (d :: r) HN H). cbn in *. nia.
+Qed.
+
+Lemma levels_shape fuel : forall hosts useAll ilLen N nodes lvl st sizes st' sizes',
+  1 <= N ->
+  levels fuel hosts useAll ilLen N nodes lvl st sizes = Some (st', sizes') ->
+  total st <= nodes -> length (bacc st) = total st ->
+  length lvl = hd 0 sizes -> total st = list_sum sizes -> rfull N sizes ->
+  total st' = nodes /\ length (bacc st') = nodes /\ list_sum sizes' = nodes /\ rshape N sizes'.
+Proof.
+  induction fuel as [|f IH]; intros hosts useAll ilLen N nodes lvl st sizes st' sizes' HN H Hle Hlen Hl Hs Hf.
   - cbn in H. destruct (nodes <=? total st) eqn:E; [|discriminate].
-    apply Nat.leb_le in E. inversion H; subst. lia.
+    apply Nat.leb_le in E. inversion H; subst. repeat split; try lia. now apply rfull_rshape.
   - cbn [levels] in H. destruct (nodes <=? total st) eqn:E.
-    + apply Nat.leb_le in E. inversion H; subst. lia.
-    + destruct (level _ _ _ _ _ _ _ _ _ _) as [[st1 newlvl]|] eqn:Hl; [|discriminate].
-      apply level_total in Hl; try lia.
-      destruct Hl as (H1 & H2 & _).
-      apply IH in H; try lia.
+    + apply Nat.leb_le in E. inversion H; subst. repeat split; try lia. now apply rfull_rshape.
+    + apply Nat.leb_gt in E.
+      destruct (level _ _ _ _ _ _ _ _ _ _) as [[st1 newlvl]|] eqn:Hlv; [|discriminate].
+      pose proof (rfull_pos N sizes HN Hf) as Hpos.
+      assert (Hne : lvl <> []) by (destruct lvl; cbn in *; [lia|discriminate]).
+      pose proof (level_total _ _ _ _ _ _ _ _ _ _ _ _ HN eq_refl Hlv Hle Hlen) as (T1 & T2 & T3).
+      destruct (level_fill _ _ _ _ _ _ _ _ _ _ _ _ HN eq_refl Hlv Hle) as (F0 & F1 & F2 & F3).
+      cbn [length] in F1. rewrite Nat.sub_0_r in F2, F3.
+      destruct (Nat.le_gt_cases (N * length lvl) (nodes - total st)) as [Hfull|Hpart].
+      * (* a full level *)
+        specialize (F2 Hfull).
+        assert (A3 : length newlvl = total st1 - total st) by (cbn in F1; lia).
+        apply (IH _ _ _ _ _ _ _ _ _ _ HN H); [lia|lia|reflexivity| |].
+        -- cbn [list_sum fold_right]. change (fold_right Init.Nat.add 0 sizes) with (list_sum sizes). lia.
+        -- destruct sizes as [|d r]; [cbn in Hf; tauto|]. cbn in Hl. cbn [rfull]. split; [|exact Hf]. cbn. nia.
+      * (* the last level: the pass ends at [nodes], the loop stops *)
+        specialize (F3 ltac:(lia) Hne).
+        assert (A3 : length newlvl = total st1 - total st) by (cbn in F1; lia).
+        destruct f as [|f'].
+        -- cbn in H. rewrite F3, Nat.leb_refl in H. inversion H; subst.
+           repeat split; try lia.
+           ++ cbn [list_sum fold_right]. change (fold_right Init.Nat.add 0 sizes) with (list_sum sizes). lia.
+           ++ destruct sizes as [|d r]; [cbn in Hf; tauto|]. cbn in Hl. cbn [rshape]. split; [|exact Hf]. cbn in *. nia.
+        -- cbn [levels] in H. rewrite F3, Nat.leb_refl in H. inversion H; subst.
+           repeat split; try lia.
+           ++ cbn [list_sum fold_right]. change (fold_right Init.Nat.add 0 sizes) with (list_sum sizes). lia.
+           ++ destruct sizes as [|d r]; [cbn in Hf; tauto|]. cbn in Hl. cbn [rshape]. split; [|exact Hf]. cbn in *. nia.
+Qed.
+
+Lemma gen_big_full_spec hosts N nodes st sizes : 1 <= N -> 1 <= nodes ->
+  gen_big_full hosts N nodes = Some (st, sizes) ->
+  length (bacc st) = nodes /\ list_sum sizes = nodes /\ rshape N sizes.
+Proof.
+  intros HN Hn. unfold gen_big_full.
+  destruct (length hosts =? 0); [discriminate|]. intros H.
+  apply levels_shape in H; cbn; try lia; auto. tauto.
 Qed.
 
 Lemma gen_big_count hosts N nodes l : 1 <= N -> 1 <= nodes ->
   gen_big hosts N nodes = GTree l -> length l = nodes.
 Proof.
-  intros HN Hn. unfold gen_big.
-  destruct (length hosts =? 0); [discriminate|].
-  destruct (levels _ _ _ _ _ _ _ _) as [st|] eqn:H; [|discriminate].
-  intros E. inversion E; subst. rewrite rev_length.
-  apply levels_total in H; cbn; try lia.
+  intros HN Hn. unfold gen_big. destruct (gen_big_full hosts N nodes) as [[st sizes]|] eqn:E; [|discriminate].
+  intros H. inversion H; subst. rewrite rev_length. now apply (gen_big_full_spec hosts N nodes st sizes).
 Qed.
+
+(* all levels but the deepest are full (N children per node of the level above), the
+   deepest holds what is left; [sizes] lists the level sizes root level first *)
+Lemma gen_big_levels hosts N nodes sizes : 1 <= N -> 1 <= nodes ->
+  gen_big_sizes hosts N nodes = Some sizes ->
+  list_sum sizes = nodes /\ rshape N (rev sizes).
+Proof.
+  intros HN Hn. unfold gen_big_sizes. destruct (gen_big_full hosts N nodes) as [[st sz]|] eqn:E; [|discriminate].
+  intros H. inversion H; subst. destruct (gen_big_full_spec hosts N nodes st sz HN Hn E) as (_ & H1 & H2).
+  rewrite rev_involutive. split; [|exact H2].
+  rewrite <- H1. clear. induction sz as [|x r IH]; [reflexivity|].
+  cbn [rev]. rewrite list_sum_app, IH. unfold list_sum. cbn [fold_right]. lia.
+Qed.
+
+Example big_sizes_example : gen_big_sizes [0; 1; 2] 2 12 = Some [1; 2; 4; 5].
+Proof. vm_compute. reflexivity. Qed.
 
 (* ------------------------------------------------------------------------ *)
 (* node identifiers                                                           *)
